@@ -92,7 +92,7 @@ def rows_crosscheck(cases):
         st = c["stmt"]
         f = SIMPLE.get(st.get("note") or "")
         q = st.get("q")
-        if st["kind"] != "construct" or f is None or not q or not q.get("ok"):
+        if st["kind"] != "construct" or f is None or not q or not q.get("ok") or st.get("having"):
             continue
         if any(g not in c["prev"] for g in st["ins"]):
             continue
